@@ -26,10 +26,11 @@ LEVEL_TEXT = ('static analysis: (D1) the edge arithmetic of skgenome.subtract._s
               'given (on a table whose index is not 0..n-1: a bound carried by a fresh-index Series is a label misalignment), and keeps exactly '
               'the rows with end-start>0 when shrinking, on a copy; (D5) _split_targets, interpreted with a symbolic start and spans giving 1..6 '
               'bins: first piece starts at row.start, every piece begins where the previous ended, last ends at row.end, piece count is '
-              'int(round(span/avg)) or 1, regions shorter than min_size are skipped (>=). (D4b) no function of skgenome writes into a class-level'
-              " or module-level dict / list / set, directly or through a local alias (resize_ranges keeps nothing from an earlier call's "
-              'chromosome sizes). Does not decide that merge/flatten/intersection outputs cover exactly the union/intersection for arbitrary '
-              'tables (algorithmic).')
+              'int(round(span/avg)) or 1, regions shorter than min_size are skipped (>=). The trim / outer / inner selection per range of the '
+              'other table is the C07-D7 rule (literal tables, nested rows, repeated zero starts). (D4b) no function of skgenome writes into a '
+              'class-level or module-level dict / list / set, directly or through a local alias (resize_ranges keeps nothing from an earlier '
+              "call's chromosome sizes). Does not decide that merge/flatten/intersection outputs cover exactly the union/intersection for "
+              'arbitrary tables (algorithmic).')
 TECHNIQUE = ('reaching-definition / resolved-callee precondition rule; argument-kind agreement at a function-pointer slot; abstract '
              'interpretation (comparison atoms, symbolic coordinates); shared-mutable-state rule')
 
